@@ -98,7 +98,7 @@ def r3(cx):
     polls = [c for c in b.calls if "oneshot::Receiver" in c.primary and c.primary.endswith("poll")]
     if not polls:
         raise AnchorMissing("commit() no longer awaits the completion receiver")
-    dom(cx, b, main_pu, polls, "publish before awaiting completion")
+    dom(cx, b, pu, polls, "publish before awaiting completion")
     oks = [x for x, k in exits(b) if k in ("ok", "tail")]
     # exits after enqueue that can be Ok must be dominated by the completion await
     enq = sites(cx, b, "CommitQueue::enqueue")
@@ -114,7 +114,10 @@ def r3(cx):
         o = origin_of_operand(c.body, c.args[1])
         variants = {a.get("variant") for a in o.aggs if a.get("adt") == "std::result::Result"}
         if owner == "commit::CommitPipeline::publish":
-            cx.check(variants == {"Ok"}, "publish() completes batches with Ok", "complete-variant|publish", c.where())
+            # Ok, or the batch's recorded outcome (Ok unless commit() recorded a failure before mark_applied)
+            oc = [x for x in c.body.calls if x.bb in c.body.live and x.names & {"CommitBatch::outcome"}]
+            via_outcome = o.from_call("CommitBatch::outcome") or (bool(oc) and c.body.set_dominates([x.bb for x in oc], c.bb))
+            cx.check(variants == {"Ok"} or via_outcome, "publish() completes batches with Ok / their recorded outcome", "complete-variant|publish", c.where())
             pb = c.body
             lds = [x for x in pb.calls_to("std::sync::atomic::Atomic::load")]
             dom(cx, pb, lds, [c], "horizon examined before completing the batch")
